@@ -1,7 +1,7 @@
 """C03 - a task's exception surfaces exactly once at the wait, after the group stopped.  (DESIGN.md section 4, C03)"""
 from engine.facts import AnalysisBroken, atomic_op, atomic_ops, has_acquire, has_release
 from engine.rules import (calls, calls_named, atomics_on, every_path_passes, last_member, oname, is_call_to, Defs,
-                          resolve_cond_source, edges_where, dominated_by_edges, member_accesses, Summaries)
+                          resolve_cond_source, edges_where, dominated_by_edges, member_accesses, Summaries, assignments)
 from rules.common import task_classes, k7_task_class, TBB_SRC, TASK_BASE, exit_coverage
 
 UNITS = ['src/tbb/task_dispatcher.cpp', 'src/tbb/task_group_context.cpp', 'src/tbb/exception.cpp', 'src/tbb/arena.cpp',
@@ -70,6 +70,7 @@ def run(facts, rep):
     d2_rethrow(facts, rep)
     d3_parity(facts, rep)
     d4_join(facts, rep)
+    d4_single_slot_storage(facts, rep)
     d5_reset(facts, rep)
     d6_noexcept(facts, rep)
     d7_delegate(facts, rep)
@@ -785,3 +786,73 @@ def d13_storage_of_failed_constructions(facts, rep):
                'failed task_group::run / try_put leaks one small object', key_extra='new_object')
     if n < 1:
         raise AnalysisBroken('no instantiation of small_object_allocator::new_object with a throwing constructor found')
+
+
+def d4_single_slot_storage(facts, rep):
+    """"All objects the library created ... are destroyed exactly once": a class that keeps an object in raw storage
+    (aligned_space<T> with one slot) and destroys it explicitly in its destructor may do so only if the object exists: either
+    every constructor of the class constructs it, or the destructor call is guarded by a member flag, and then every
+    placement-new into that storage (anywhere in the analysed code) is followed on every path by raising that flag.
+    Otherwise the destructor of a user type (Range, Body, a return value) runs on storage that was never constructed."""
+    n = 0
+
+    def storage_members(fn, root):
+        out = []
+        if root is None or root < 0:
+            return out
+        for x in fn.subtree(root):
+            m = fn.nodes[x]
+            if m.get('k') == 'member' and (m.get('ty') or '').replace(' ', '').endswith(',1>') and 'aligned_space<' in (m.get('ty') or ''):
+                out.append(m)
+        return out
+    news = {}          # (declaring class, member) -> [(fn, pos)]
+    for fn in facts.fns.values():
+        if not fn.q.startswith('tbb::detail::'):
+            continue
+        for pos, s, nd in fn.stmt_elems(('new',)):
+            for a in nd.get('pl') or []:
+                for m in storage_members(fn, a):
+                    news.setdefault((m.get('cls'), m['n']), []).append((fn, pos))
+    seen = set()
+    for fn in sorted(facts.fns.values(), key=lambda f: f.q):
+        if fn.kind != 'dtor' or not fn.q.startswith('tbb::detail::'):
+            continue
+        for pos, s, nd in fn.stmt_elems(('call', 'pseudodtor')):
+            if nd.get('k') == 'call' and (fn.callee(s) or {}).get('n') != '(dtor)':
+                continue
+            ms = storage_members(fn, nd.get('obj', nd.get('sub', -1)))
+            if not ms:
+                continue
+            m = ms[0]
+            key = (fn.p, m['n'])
+            n += 1
+            flags = {}
+
+            def flag_guard(a, truth, flags=flags):
+                x = fn.n(fn.strip(a))
+                if x.get('k') == 'member' and fn.n(fn.strip(x.get('base', -1))).get('k') == 'this' and truth:
+                    flags[x['n']] = True
+                    return True
+                return False
+            guarded, wit = dominated_by_edges(fn, pos, edges_where(fn, flag_guard))
+            ctors = facts.by_p.get(fn.p.rsplit('::', 1)[0] + '::(ctor)', [])
+            all_construct = bool(ctors) and all(any(g is c for g, _ in news.get((m.get('cls'), m['n']), [])) for c in ctors)
+            ok = guarded or all_construct
+            detail = 'the destructor destroys %s unconditionally, but only %s construct(s) it' % (
+                m['n'], sorted(set(g.p.split('::')[-1] for g, _ in news.get((m.get('cls'), m['n']), []))) or 'nothing in the analysed code')
+            if guarded:
+                # the flag tested in the destructor is raised somewhere (after the construction in the same function - the zombie
+                # body - or where the object is taken over - task_arena_function::consume_result); a flag that is never raised
+                # means the object is never destroyed
+                raised = False
+                for g in facts.fns.values():
+                    if g.q.startswith('tbb::detail::') and any(last_member(g, l2) in flags and g.cv(r2) == 1 for p2, s2, l2, r2 in assignments(g)):
+                        raised = True
+                        break
+                if not raised:
+                    ok = False
+                    detail = 'the flag %s that guards the destruction is never raised: the object is never destroyed' % '/'.join(sorted(flags))
+            rep.ob('D4', 'K3', fn, 'an object kept in single-slot raw storage is destroyed only if it was constructed (%s)' % m['n'], ok,
+                   detail + ' - the destructor of a user type runs on storage that never held an object', ln=nd.get('ln'), key_extra='slot|' + m['n'])
+    if n < 3:
+        raise AnalysisBroken('destructors destroying single-slot aligned_space members: %d (expected reduction_tree_node, final_sum, task_arena_function, ets_element)' % n)
